@@ -166,6 +166,7 @@ def parseEvent (ts : List String) : Option CEvent :=
   | ["open"] => some (.plain .wsOpen)
   | ["drop"] => some (.plain .wsClose)
   | ["wsfail"] => some (.plain .wsFail)
+  | ["tcpup"] => some (.plain .tcpUp)
   | ["failinitial"] => some (.plain .failInitial)
   | ["svcstopped"] => some (.plain .svcStopped)
   | ["welcome", v] => (bool? v).map (fun b => .plain (.welcome b))
